@@ -37,7 +37,34 @@
 //! and `functions_with_zero_successes` (functions the generator never managed to call successfully).
 //!
 //! Deviations from DESIGN.md: "same signature" is replaced by C (the FFI replaces every signature by
-//! `user_defined` by design); argument scalar-ness is not demanded (see I).
+//! `user_defined` by design; for such signatures the planner additionally verifies castability, so "native
+//! accepts an uncastable vector / foreign rejects" is tolerated, see `coercion_agree` in main.rs); the
+//! catalog has 180 built-in scalar functions (default + nested; the ~350 of the design counted Spark
+//! functions, which are not a dependency of this crate) plus the harness UDF `vf_config_echo`.
+//!
+//! Invocation oracle in detail (G = native on the arguments as given, A = native on the same arguments
+//! materialised as arrays, F = foreign on the arguments as given): F must agree with A (today's array-only
+//! transport) or with G (a transport that keeps scalars, see the proposed repair) in success, variant,
+//! length, type and values. If F agrees with A but G succeeds where F fails, the case is the GENUINE FINDING
+//! `scalar-args-lost` (open in /verif/known_findings.json, case regressions/C45/c45a/, repair
+//! fixes/C45-ffi-scalar-udf-keeps-scalar-arguments.diff): functions that require a literal argument
+//! (date_part, date_trunc, date_bin, encode, decode, digest, from_unixtime(_, tz), to_hex, trunc(x, n),
+//! array_has_any, array_remove*, map, to_time, arrow_metadata) work natively and can never succeed through
+//! `ForeignScalarUDF`. The violation is raised last, after every other comparison of the case passed, and is
+//! matched by `known_signature`, so those functions stay covered by M/C/R/P while the finding is open.
+//! A panic of the NATIVE function (map / make_array / array_concat / lpad / rpad / array_length on odd
+//! inputs — C32 territory) ends the case with a `native-panic:` label before the foreign side is called: the
+//! same panic inside an `extern "C"` entry point would abort the process.
+//!
+//! Sensitivity probes (env-gated multi-mutation patch probes/probes.diff, driver probes/run-probes.sh, log
+//! probes/probes.log; `tools/mutrun probes/probes.diff -- bash probes/run-probes.sh`; quick tier, seed 0):
+//!  p1  ForeignScalarUDF passes `number_rows.min(1)`            → VIOLATION "uuid(): result length differs: native 5 foreign 1"
+//!  p2  provider returns the return field with nullable=true     → VIOLATION "coalesce(..): return_field_from_args differs .. nullable=false / true"
+//!  p11 FFI_Volatility maps Stable to Immutable                  → VIOLATION "current_date(): volatility: native Stable foreign Immutable"
+//!  p12 ForeignScalarUDF sends default ConfigOptions            → first run MISSED (only to_unixtime reads the options at
+//!      invocation); generator strengthened with the harness UDF `vf_config_echo` (echoes time zone, batch size, number_rows);
+//!      re-probe verdict in probes.log.
+//! With the three proposed repairs applied (probes/fixes-all.diff) `./check C45 quick` passes with known_excluded = 0.
 use crate::fx::*;
 use crate::vals::*;
 use crate::{FOREIGN_MARKER_NOTE, harness_marker};
